@@ -189,6 +189,22 @@ func workloads() []workload {
 	ws = append(ws, workload{"type1.Read(nested seac chain)", func() string {
 		return observe.Run("font", bytes.NewReader(nestedSeacFont())).Obs
 	}})
+	// dictionaries whose keys differ only in the case of their letters: whichever of
+	// them the reader uses, it is the same one every time
+	for k, info := range []string{
+		"8 dict dup begin /Version (002.000) def /VERSION (001.001) def /vERSION (003) def /Notice (n1) def /NOTICE (n2) def /fullname (a) def /FULLNAME (b) def /weight (w) def end",
+		"9 dict dup begin /version () def /Version (002.000) def /VERSION (001.001) def /FullName () def /FULLNAME (b) def /Fullname (c) def /FAMILYNAME (x) def /Familyname (y) def /isfixedpitch true def end",
+	} {
+		info := info
+		ws = append(ws, workload{fmt.Sprintf("type1.Read(keys that differ only in case, %d)", k+1), func() string {
+			data := t1raw.Build(t1raw.FontSpec{EncLenIV: 4, FontInfo: info,
+				Private: "/bluevalues [1 2] def /BLUEVALUES [3 4] def /Bluevalues [5 6] def /stdhw [10] def /STDHW [20] def /forcebold true def /FORCEBOLD false def\n",
+				Top:     "/fonttype 1 def /FONTTYPE 1 def /painttype 2 def /PAINTTYPE 0 def /fontbbox [1 1 2 2] def /FONTBBOX [0 0 9 9] def\n",
+				Glyphs:  map[string][]byte{".notdef": {139, 248, 136, 13, 14}, "B": {139, 248, 136, 13, 14}},
+				Order:   []string{".notdef", "B"}})
+			return observe.Run("font", bytes.NewReader(data)).Obs
+		}})
+	}
 	// several fonts in one file: whatever Read makes of it, it must not depend on
 	// the order of the font directory
 	for _, names := range [][]string{{"One", "Two"}, {"Two", "One", "Mid"}, {"Same", "Same"}} {
@@ -449,6 +465,21 @@ func workloads() []workload {
 		intp := postscript.NewInterpreter()
 		err := intp.ExecuteString("<< /a 1 /b 2 /c 3 /d 4 >> { pop exit } forall  0 << /p 1 /q 2 /r 3 >> { exch pop exch 10 mul add } forall")
 		return pscmp.Canon(opTable, intp) + fmt.Sprint(" err=", err)
+	}})
+	// an operator that walks a dictionary and is stopped half-way by an error which the
+	// program's own handler swallows: what has been done by then must not depend on the order
+	ws = append(ws, workload{"copy of a dictionary into one of 65535 entries, errors swallowed by the program", func() string {
+		// (the language has no operator that makes a name from a number: the entries are spelt out)
+		var sb strings.Builder
+		sb.WriteString("/d 65535 dict def d begin\n")
+		for i := 0; i < 65535; i++ {
+			fmt.Fprintf(&sb, "/k%d 0 def\n", i)
+		}
+		sb.WriteString("end errordict /dictfull { } put errordict /limitcheck { } put\n" +
+			"<< /x1 1 /x2 2 /x3 3 >> d copy count { pop } repeat /res [ d /x1 known d /x2 known d /x3 known d length ] def\n")
+		intp := postscript.NewInterpreter()
+		err := intp.ExecuteString(sb.String())
+		return fmt.Sprint(intp.UserDict["res"], " err=", err)
 	}})
 	ws = append(ws, workload{"ReadCMap(name and mappings chosen by forall over a dictionary)", func() string {
 		text := "/CIDInit /ProcSet findresource begin\n12 dict begin\nbegincmap\n/CMapName << /Gamma 1 /Alpha 2 /Beta 3 >> { pop exit } forall def\n/CMapType 1 def\n" +
